@@ -223,12 +223,13 @@ Proof. unfold tmax. cbn. destruct (Rlt_dec x y); lra. Qed.
 
 (* what every exit of a solver is shown to satisfy: k completed iterations *)
 Definition drift_post (b : list R) (k : nat) (x : list R) (g : ghost SAm) : Prop :=
-  len x = n /\ len (g_t g) = n /\
+  len x = n /\ len (g_t g) = n /\ 0 <= t_X (g_X g) /\
   (1 - rho) ^ (k + 1) * gap b x (g_t g) <= (4 * INR k + 1) * Wd b (t_X (g_X g)).
 
 (* ---------------------------------------------------------------- CG *)
 Definition cg_I (b : list R) (i : nat) (s : cg_st (A := SAm)) : Prop :=
   (1 <= i)%nat /\ len (cg_x s) = n /\ len (cg_r s) = n /\ len (cg_z s) = n /\ len (cg_p s) = n /\
+  0 <= t_X (cg_X s) /\
   (1 - rho) ^ i * gap b (cg_x s) (cg_r s) <= (4 * INR i - 3) * Wd b (t_X (cg_X s)).
 
 Lemma cg_body_drift b tol normb i s out :
@@ -238,7 +239,7 @@ Lemma cg_body_drift b tol normb i s out :
   | Return (res, x, g) => res = IOk i /\ drift_post b i x g
   end.
 Proof using u_range n_small fadd_ok fsub_ok fmul_ok fadd_0_mul fsqrt_ok NA_nonneg eA_nonneg NA_ok MV.
-  intros (Hi & Lx & Lr & Lz & Lp & HG) H. unfold cg_body in H.
+  intros (Hi & Lx & Lr & Lz & Lp & PX & HG) H. unfold cg_body in H.
   apply bind_ok in H as (z & Ez & H). apply (ident_pre_Ok (A := SAm)) in Ez as (-> & _); [|exact Lz].
   apply bind_ok in H as (rh & _ & H).
   apply bind_ok in H as (p & Ep & H).
@@ -278,8 +279,10 @@ Proof using u_range n_small fadd_ok fsub_ok fmul_ok fadd_0_mul fsqrt_ok NA_nonne
   destruct (leb resid tol); injection H as <-.
   - split; [reflexivity|]. unfold drift_post. cbn [g_t g_X]. split; [exact Lx'|]. split; [exact Lr'|].
     change (t_X (see (track (pivot (cg_X s) (cosq pq p q)) uu x') resid tol)) with tX'.
-    replace (i + 1)%nat with (S i) by lia. rewrite S_INR in Hnew. lra.
-  - unfold cg_I. cbn [cg_x cg_r cg_z cg_p cg_X]. split; [lia|]. repeat split; auto.
+    split; [lra|]. replace (i + 1)%nat with (S i) by lia. rewrite S_INR in Hnew. lra.
+  - unfold cg_I. cbn [cg_x cg_r cg_z cg_p cg_X]. split; [lia|].
+    split; [exact Lx'|]. split; [exact Lr'|]. split; [exact Lr|]. split; [exact Lp'|].
+    split; [change (0 <= tX'); lra|exact Hnew].
 Qed.
 
 Theorem cg_drift_any (b x0 : list R) cols max tol res x g :
@@ -302,11 +305,12 @@ Proof using u_range n_small fadd_ok fsub_ok fmul_ok fadd_0_mul fsqrt_ok NA_nonne
   destruct (leb resid tol).
   - injection H as <- <- <-. exists 0%nat. split; [lia|]. split; [|split; [congruence|discriminate]].
     unfold drift_post. cbn [g_t g_X t_X trace0]. split; [exact Lx0|]. split; [exact Lr0|].
-    cbn [Nat.add pow INR]. lra.
+    destruct (norm2_bounds x0 Lx0) as (P0 & _). split; [exact P0|]. cbn [Nat.add pow INR]. lra.
   - set (s0 := mkCG (A := SAm) x0 r0 (zeros (A := SAm) n) (zeros (A := SAm) n) (@one SAm) resid (trace0 (A := SAm) x0 resid tol)) in *.
     assert (I0 : cg_I b 1 s0).
     { unfold cg_I, s0. cbn [cg_x cg_r cg_z cg_p cg_X t_X trace0]. split; [lia|].
-      rewrite !(zeros_length (A := SAm)). repeat split; auto. cbn [pow INR]. lra. }
+      rewrite !(zeros_length (A := SAm)). destruct (norm2_bounds x0 Lx0) as (P0 & _).
+      repeat split; auto. cbn [pow INR]. lra. }
     destruct (iloop_char (A := SAm) (cg_body (A := SAm) mulA n tol (nz (A := SAm) (norm2 (A := SAm) b))) (cg_final (A := SAm))
                 (cg_I b)
                 (fun i s s' HI Eb => cg_body_drift b tol _ i s (Continue s') HI Eb)
@@ -315,8 +319,8 @@ Proof using u_range n_small fadd_ok fsub_ok fmul_ok fadd_0_mul fsqrt_ok NA_nonne
     + pose proof (cg_body_drift b tol _ i s (Return (res, x, g)) HI Eb) as (-> & HP).
       exists i. split; [lia|]. split; [exact HP|]. split; [congruence|discriminate].
     + unfold cg_final in Ef. injection Ef as -> -> ->. exists max. split; [lia|].
-      destruct HI as (_ & Lx & Lr & _ & _ & HG). split; [|split; [discriminate|reflexivity]].
-      unfold drift_post. cbn [g_t g_X]. split; [exact Lx|]. split; [exact Lr|].
+      destruct HI as (_ & Lx & Lr & _ & _ & PX & HG). split; [|split; [discriminate|reflexivity]].
+      unfold drift_post. cbn [g_t g_X]. split; [exact Lx|]. split; [exact Lr|]. split; [exact PX|].
       replace (max + 1)%nat with (1 + max)%nat by lia.
       replace (4 * INR (1 + max) - 3) with (4 * INR max + 1) in HG by (rewrite plus_INR; cbn [INR]; ring).
       exact HG.
@@ -341,7 +345,8 @@ Qed.
 Definition dr (j : nat) (G W : R) : Prop := (1 - rho) ^ (j + 1) * G <= (4 * INR j + 1) * W.
 
 Lemma drift_post_dr b k x g :
-  drift_post b k x g <-> len x = n /\ len (g_t g) = n /\ dr k (gap b x (g_t g)) (Wd b (t_X (g_X g))).
+  drift_post b k x g <->
+  len x = n /\ len (g_t g) = n /\ 0 <= t_X (g_X g) /\ dr k (gap b x (g_t g)) (Wd b (t_X (g_X g))).
 Proof. unfold drift_post, dr. tauto. Qed.
 
 Lemma dr_step j G G' W W' :
@@ -444,6 +449,7 @@ Proof using u_range n_small fadd_ok fsub_ok fmul_ok fadd_0_mul fsqrt_ok NA_nonne
   destruct (leb err tol); injection H as <-.
   - split; [reflexivity|]. apply drift_post_dr. cbn [g_t g_X].
     split; [exact Lx'|]. split; [destruct (itol =? 2)%nat; exact Lr'|].
+    split; [destruct (norm2_bounds x' Lx') as (Px & _); change (0 <= tX'); lra|].
     destruct (itol =? 2)%nat; exact Hnew.
   - unfold bi_I. cbn [bi_x bi_r bi_rr bi_z bi_zz bi_p bi_pp bi_X]. split; [lia|].
     repeat split; auto. replace (S i - 1)%nat with i by lia. exact Hnew.
@@ -487,7 +493,8 @@ Proof using u_range n_small fadd_ok fsub_ok fmul_ok fadd_0_mul fsqrt_ok NA_nonne
   assert (Lr0 : len r0 = n) by (unfold r0; apply zipw_len; assumption).
   assert (D0 : dr 0 (gap b x0 r0) (Wd b (norm2 (A := SAm) x0))) by (unfold dr; cbn [Nat.add pow INR]; lra).
   destruct (leb err tol).
-  - injection H as <- <- <-. split; [lia|]. apply drift_post_dr. cbn [g_t g_X t_X trace0]. auto.
+  - injection H as <- <- <-. split; [lia|]. apply drift_post_dr. cbn [g_t g_X t_X trace0].
+    destruct (norm2_bounds x0 Lx0) as (P0 & _). auto.
   - set (s0 := mkBI (A := SAm) x0 r0 r0 r0 (zeros (A := SAm) n) (zeros (A := SAm) n) (zeros (A := SAm) n) (@one SAm) err
                  (trace0 (A := SAm) x0 err tol)) in *.
     assert (I0 : bi_I b 1 s0).
@@ -559,6 +566,7 @@ Proof using u_range n_small fadd_ok fsub_ok fmul_ok fadd_0_mul fsqrt_ok NA_nonne
     assert (Lx' : len x' = n) by (unfold x'; apply zipw_len; assumption).
     split; [intros k E; injection E as <-; reflexivity|].
     apply drift_post_dr. cbn [g_t g_X]. split; [exact Lx'|]. split; [exact Lsv'|].
+    destruct (norm2_bounds x' Lx') as (Px & _). split; [change (0 <= tX'); lra|].
     replace (2 * i)%nat with (S (S (2 * (i - 1)))) by lia.
     apply dr_weaken; [apply gap_nonneg|apply Wd_nonneg; change (0 <= tX'); lra|exact Hnew]. }
   apply bind_ok in H as (shat & Esh & H). apply (ident_pre_Ok (A := SAm)) in Esh as (-> & _); [|exact Lsh].
@@ -601,9 +609,11 @@ Proof using u_range n_small fadd_ok fsub_ok fmul_ok fadd_0_mul fsqrt_ok NA_nonne
   destruct (norm2_bounds x2 Lx2) as (Px2 & _ & _).
   destruct (ltb resid2 tol).
   { injection H as <-. split; [intros k E; injection E as <-; reflexivity|].
-    apply drift_post_dr. cbn [g_t g_X]. auto. }
+    apply drift_post_dr. cbn [g_t g_X]. split; [exact Lx2|]. split; [exact Lr2'|].
+    split; [change (0 <= tX2); lra|exact H2]. }
   destruct (eqb omega zero).
-  { injection H as <-. split; [discriminate|]. apply drift_post_dr. cbn [g_t g_X]. auto. }
+  { injection H as <-. split; [discriminate|]. apply drift_post_dr. cbn [g_t g_X]. split; [exact Lx2|]. split; [exact Lr2'|].
+    split; [change (0 <= tX2); lra|exact H2]. }
   injection H as <-. unfold st_I. cbn [st_x st_r st_phat st_shat st_X]. split; [lia|].
   split; [exact Lx2|]. split; [exact Lr2'|]. split; [exact Lp|]. split; [exact Lsv'|].
   split; [change (0 <= tX2); lra|].
@@ -702,7 +712,7 @@ Lemma solved_from_post (b : list R) tol k x (g : ghost SAm) :
     <= tol * (kap * (1 + rho) * (1 + gN)) * nzR (N2 n (vf b))
        + (4 * INR k + 1) * Wd b (t_X (g_X g)) / (1 - rho) ^ (k + 1).
 Proof using u_range n_small fadd_ok fmul_ok fdiv_ok fadd_0_mul fsqrt_ok.
-  intros Lb (Lx & Lr & HG) HP. destruct (passed_bound b tol g Lb Lr HP) as (_ & Hr).
+  intros Lb (Lx & Lr & _ & HG) HP. destruct (passed_bound b tol g Lb Lr HP) as (_ & Hr).
   pose proof (rho_range u u_half) as Rr.
   assert (P : 0 < (1 - rho) ^ (k + 1)) by (apply pow_lt; lra).
   assert (HG' : gap b x (g_t g) <= (4 * INR k + 1) * Wd b (t_X (g_X g)) / (1 - rho) ^ (k + 1)).
@@ -770,6 +780,62 @@ Proof using u_range n_small fadd_ok fsub_ok fmul_ok fdiv_ok fadd_0_mul fsqrt_ok 
   intros Hq H. destruct (run_drift_lemma sv b x0 cols max tol k x g Hq H) as (Hk & HP). split; [exact Hk|].
   apply (solved_from_post b tol (updates sv k) x g (run_len_b sv b x0 cols max tol _ H) HP).
   exact (proj2 (run_ok_inv (A := SAm) mulA mulAT n cols sv b x0 max tol k x g H)).
+Qed.
+
+(* ---------------------------------------------------------------- the oracle's allowance, as a corollary.
+   driver/c08.py accepts an Ok answer when  ||b - A x|| <= tol ||b||' + 64 (k+1) eps (||A|| X + ||b||),  eps = 2u.
+   With the product accurate to  eA <= c u NA  and the amplification  amp = kap (1+rho) / (1-rho)^(j+1)  (1 + O((j+n) u)):
+   the allowance is implied as soon as  (4j+1) (1+c) amp <= 128 (k+1). *)
+Definition amp (j : nat) : R := kap * (1 + rho) / (1 - rho) ^ (j + 1).
+
+Lemma drift_le_allowance (b : list R) (j k : nat) (c tX : R) :
+  0 <= c -> eA <= c * (u * NA) -> 0 <= tX ->
+  (4 * INR j + 1) * (1 + c) * amp j <= 128 * INR (k + 1) ->
+  (4 * INR j + 1) * Wd b tX / (1 - rho) ^ (j + 1) <= 64 * INR (k + 1) * (2 * u) * (NA * tX + N2 n (vf b)).
+Proof using u_range n_small NA_nonneg eA_nonneg.
+  intros Hc He HtX Ha. pose proof (rho_range u u_half) as Rr. pose proof kap_ge1 as K1. pose proof u_half as Uh.
+  pose proof (N2_nonneg n (vf b)) as PB. set (B := N2 n (vf b)) in *.
+  assert (P : 0 < (1 - rho) ^ (j + 1)) by (apply pow_lt; lra).
+  assert (Pi : 0 < / (1 - rho) ^ (j + 1)) by now apply Rinv_0_lt_compat.
+  pose proof (pos_INR j) as Pj.
+  assert (Eru : rho = u * (1 + rho)) by (symmetry; apply (rho_u u Uh)).
+  (* Wd <= (1+c) u (1+rho) kap (NA tX + B) *)
+  assert (HW : Wd b tX <= (1 + c) * (u * (1 + rho) * kap) * (NA * tX + B)).
+  { unfold Wd. fold B.
+    assert (H1 : rho * NA + eA <= (1 + c) * (u * (1 + rho)) * NA).
+    { rewrite Eru at 1. assert (0 <= u * NA) by nra. assert (0 <= c * (u * NA) * rho) by nra. nra. }
+    assert (0 <= kap * tX) by nra.
+    assert (H2 : (rho * NA + eA) * (kap * tX) <= (1 + c) * (u * (1 + rho)) * NA * (kap * tX))
+      by (apply Rmult_le_compat_r; assumption).
+    assert (H3 : rho * B <= (1 + c) * (u * (1 + rho) * kap) * B).
+    { rewrite Eru at 1. assert (0 <= u * (1 + rho) * B) by nra.
+      assert (u * (1 + rho) * B <= u * (1 + rho) * B * kap) by nra.
+      assert (0 <= c * (u * (1 + rho) * kap * B)) by (repeat apply Rmult_le_pos; lra). nra. }
+    nra. }
+  assert (HS : 0 <= NA * tX + B) by nra.
+  unfold Rdiv.
+  apply Rle_trans with ((4 * INR j + 1) * ((1 + c) * (u * (1 + rho) * kap) * (NA * tX + B)) * / (1 - rho) ^ (j + 1)).
+  - apply Rmult_le_compat_r; [lra|]. apply Rmult_le_compat_l; [lra|exact HW].
+  - replace ((4 * INR j + 1) * ((1 + c) * (u * (1 + rho) * kap) * (NA * tX + B)) * / (1 - rho) ^ (j + 1))
+      with (((4 * INR j + 1) * (1 + c) * amp j) * (u * (NA * tX + B))) by (unfold amp; field; lra).
+    replace (64 * INR (k + 1) * (2 * u) * (NA * tX + B)) with ((128 * INR (k + 1)) * (u * (NA * tX + B))) by ring.
+    apply Rmult_le_compat_r; [nra|exact Ha].
+Qed.
+
+Theorem run_ok_means_solved_allowance_lemma sv (b x0 : list R) cols max tol k x g (c : R) :
+  sv <> QMR -> 0 <= c -> eA <= c * (u * NA) ->
+  (4 * INR (updates sv k) + 1) * (1 + c) * amp (updates sv k) <= 128 * INR (k + 1) ->
+  run (A := SAm) mulA mulAT n cols sv b x0 max tol = Ok (IOk k, x, g) ->
+  N2 n (fun i => vf b i - Ax n a (vf x) i)
+    <= tol * (kap * (1 + rho) * (1 + gN)) * nzR (N2 n (vf b))
+       + 64 * INR (k + 1) * (2 * u) * (NA * t_X (g_X g) + N2 n (vf b)).
+Proof using u_range n_small fadd_ok fsub_ok fmul_ok fdiv_ok fadd_0_mul fsqrt_ok NA_nonneg eA_nonneg NA_ok MV.
+  intros Hq Hc He Ha H.
+  destruct (run_ok_means_solved_rounded_lemma sv b x0 cols max tol k x g Hq H) as (_ & HB).
+  eapply Rle_trans; [exact HB|]. apply Rplus_le_compat_l.
+  apply (drift_le_allowance b (updates sv k) k c); auto.
+  (* the ghost maximum is nonnegative: it dominates the computed norm of x *)
+  destruct (run_drift_lemma sv b x0 cols max tol k x g Hq H) as (_ & (_ & _ & PX & _)). exact PX.
 Qed.
 
 End Drift.
